@@ -209,6 +209,21 @@ func (c *Clients) do(cl int, kind string, inc *Inc) *Call {
 				w.flt.inject("blip_leader")
 				return f.Error()
 			}
+			// faults placed inside the operation: the leader loses its voters while the request is
+			// pending, and sometimes one of those voters is removed from the cluster meanwhile
+			if w.cfg.Faults["cut_leader_from_voters"] > 0 && !w.quiet && r.State() == raft.Leader && w.ch.Chance(simrt.SFault, 1, 5) {
+				w.flt.inject("cut_leader_from_voters")
+				if w.ch.Chance(simrt.SFault, 1, 2) {
+					_, _, latest, _ := r.VerifConfigurations()
+					for _, id := range voters(latest) {
+						if id != inc.node.id {
+							r.RemoveServer(id, 0, 0) // fire and forget: the future is not part of the recorded history
+							w.stats.probe("voter_removed_while_verify_pending")
+							break
+						}
+					}
+				}
+			}
 			return f.Error()
 		}
 	case "getconfig":
